@@ -315,6 +315,42 @@ func c02All(o *common.Out, id string, max int, chunks []int, stream []byte, want
 			break
 		}
 	}
+	// the other entry point: protocol.Read, on a reader that is nothing but a reader (no buffering of its own, chunks as
+	// they come, several frames per chunk): the same messages, the same end
+	{
+		big := make([]int, len(chunks))
+		for i, c := range chunks {
+			big[i] = c * 97 // chunks that span frames as well as chunks inside them
+		}
+		for _, cks := range [][]int{chunks, big} {
+			plain := struct{ io.Reader }{&chunkReader{data: append([]byte{}, stream...), chunks: cks}}
+			var got2 []string
+			end2 := "none"
+			for {
+				var m2 *protocol.Message
+				var err error
+				func() {
+					defer func() {
+						if e := recover(); e != nil {
+							err = fmt.Errorf("invalid message: panic %v", e)
+						}
+					}()
+					m2, err = protocol.Read(plain)
+				}()
+				if err != nil {
+					if !(err == io.EOF) {
+						end2 = decErrClass(err)
+					}
+					break
+				}
+				got2 = append(got2, showMsg(m2))
+			}
+			if strings.Join(got2, " ; ") != strings.Join(got, " ; ") || end2 != end {
+				o.Fail(id, "resync", fmt.Sprintf("the stream read through protocol.Read from a plain reader gives %d messages (end=%s); decoded from a buffered reader it gives %d (end=%s)", len(got2), end2, len(got), end), abstract)
+				break
+			}
+		}
+	}
 	obs := fmt.Sprintf("n=%d %s end=%s", len(got), strings.Join(got, " ; "), end)
 	if want != nil {
 		if strings.Join(got, " ; ") != strings.Join(want, " ; ") || end != "none" {
